@@ -174,6 +174,13 @@ class Fn:
             r = self.fresh()
             binds.append((r, "py_eun evalue %s" % a))
             return r, FLOAT
+        if isinstance(node, ast.Call) and isinstance(node.func, ast.Name) and node.func.id == "dvalue__" and len(node.args) == 1 and not node.keywords:
+            a, ta = self.expr(node.args[0], env, binds)
+            if ta != OPTELT:
+                raise TranslateError("%s: error of %s" % (self.name, ta))
+            r = self.fresh()
+            binds.append((r, "py_eun edvalue %s" % a))
+            return r, FLOAT
         if isinstance(node, ast.Call) and isinstance(node.func, ast.Name) and node.func.id == "root__" and len(node.args) == 3 and not node.keywords:
             # np.abs(find_root(C(t)[0] / C(t+1)[0], root_function, guess=guess)) at timeslice t, renamed by the fragment selector
             args = [self.expr(a, env, binds) for a in node.args]
@@ -1680,6 +1687,38 @@ def frag_meff_root_loop(fn):
     return [ast.fix_missing_locations(st) for st in stmts] + [ast.Return(value=ast.Name(id="newcontent", ctx=ast.Load()))]
 
 
+class _RewritePlottable(ast.NodeTransformer):
+    """y[0].value -> value__(y);  y[0].dvalue -> dvalue__(y)  (y a plain name)"""
+    def visit_Attribute(self, node):
+        if node.attr in ("value", "dvalue") and isinstance(node.value, ast.Subscript) and isinstance(node.value.slice, ast.Constant) and node.value.slice.value == 0 \
+                and isinstance(node.value.value, ast.Name):
+            return ast.Call(func=ast.Name(id=node.attr + "__", ctx=ast.Load()), args=[node.value.value], keywords=[])
+        return self.generic_visit(node)
+
+
+def _plottable_list(fn, which):
+    import copy
+    ret = fn.body[-1]
+    if not (isinstance(ret, ast.Return) and _d(ret.value) == _d(ast.parse("x_list, y_list, y_err_list", mode="eval").body)):
+        raise TranslateError("Corr.plottable does not return x_list, y_list, y_err_list")
+    hits = [st for st in fn.body if isinstance(st, ast.Assign) and len(st.targets) == 1 and isinstance(st.targets[0], ast.Name) and st.targets[0].id == which]
+    if len(hits) != 1:
+        raise TranslateError("Corr.plottable: %s is not assigned exactly once" % which)
+    return [ast.fix_missing_locations(ast.Return(value=_RewritePlottable().visit(copy.deepcopy(hits[0].value))))]
+
+
+def frag_plottable_x(fn):
+    return _plottable_list(fn, "x_list")
+
+
+def frag_plottable_y(fn):
+    return _plottable_list(fn, "y_list")
+
+
+def frag_plottable_yerr(fn):
+    return _plottable_list(fn, "y_err_list")
+
+
 def frag_projected_single(fn):
     """Corr.projected: the statement of the single-vector branch that builds the new content."""
     import copy
@@ -1770,6 +1809,14 @@ MEFF_SIGS = [
     dict(coq="m_eff_root_loop", py="Corr.m_eff", fragment=frag_meff_root_loop, params=[], ret=CONTENT, file="correlators.py", section="meffroot",
          extra_params=[("v_content", CONTENT), ("v_is_sinh", BOOL)], env={"is_sinh": BOOL}, aliases=_CORR_ALIASES, hints={"newcontent": CONTENT}),
 ]
+PLOT_SIGS = [
+    dict(coq="corr_plottable_x", py="Corr.plottable", fragment=frag_plottable_x, params=[], ret=INTLIST, file="correlators.py", section="plot",
+         extra_params=[("v_content", CONTENT)], aliases=_CORR_ALIASES),
+    dict(coq="corr_plottable_y", py="Corr.plottable", fragment=frag_plottable_y, params=[], ret=ARR, file="correlators.py", section="plot",
+         extra_params=[("v_content", CONTENT)], aliases=_CORR_ALIASES),
+    dict(coq="corr_plottable_yerr", py="Corr.plottable", fragment=frag_plottable_yerr, params=[], ret=ARR, file="correlators.py", section="plot",
+         extra_params=[("v_content", CONTENT)], aliases=_CORR_ALIASES),
+]
 PROJ_SIGS = [
     dict(coq="corr_projected_single", py="Corr.projected", fragment=frag_projected_single, params=[], ret=CONTENT, file="correlators.py", section="proj",
          extra_params=[("v_content", CONTENT), ("v_vector_l", WVEC), ("v_vector_r", WVEC)],
@@ -1787,6 +1834,7 @@ SORT_SIGS = [
 SECTION_HEADERS = {
     "sortvec": ["Section SortVec.", "Variables V M : Type.", "Variable rowset : M -> Z -> V -> M.", "Variable absdet : M -> Q."],
     "meffroot": ["Section MeffRoot.", "Variable E : Type.", "Variable evalue : E -> Q.", "Variable eroot : E -> E -> Z -> E."],
+    "plot": ["Section Plottable.", "Variable E : Type.", "Variables evalue edvalue : E -> Q."],
     "proj": ["Section ProjOps.", "Variables E W : Type.", "Variable vnorm : W -> W.", "Variable sandwich : W -> E -> W -> E."],
     "corr": ["Section CorrOps.", "Variables E S : Type.", "Variables eadd esub emul ediv : E -> E -> E.", "Variable escale : Q -> E -> E.",
              "Variables eaddS emulS edivS : E -> S -> E.", "Variable Y : Type.", "Variable efirst : E -> Y.", "Variable ymean : list Y -> Y."],
@@ -1799,7 +1847,7 @@ def translate_source(src, sigs=None, only=None, sources=None):
     trees = {"obs.py": tree}
     for fn_, tx_ in (sources or {}).items():
         trees[fn_] = ast.parse(tx_)
-    sigs = sigs or (SIGS + CORR_SIGS + SORT_SIGS + PROJ_SIGS + MEFF_SIGS)
+    sigs = sigs or (SIGS + CORR_SIGS + SORT_SIGS + PROJ_SIGS + MEFF_SIGS + PLOT_SIGS)
 
     out = ["(* GENERATED by translate/t_pycore.py from pyerrors/obs.py -- do not edit *)",
            "From Coq Require Import ZArith QArith Qabs List Bool.",
